@@ -229,15 +229,21 @@ sl_harness! {
 // W4 (C15/C04): the loss sale, then a split of the seller's shares, then a
 // later sale of post-split shares. `exact_only` restricts to ratios whose
 // factor and its inverse are exact decimals (the complement is finding F1).
-fn lookahead_split_sell(exact_only: bool) {
+fn lookahead_split_sell(mode: u8) {
     let bd = any_in(1, SH_MAX);
     let n = any_in(1, SH_MAX);
     ks::assume(n <= bd);
-    let post = any_in(1, 4); let pre = any_in(1, 4);
-    if exact_only {
+    let (post, pre) = if mode == 0 {
         // post/pre and pre/post both terminate: {1,2,4} x {1,2,4}
+        let post = any_in(1, 4); let pre = any_in(1, 4);
         ks::assume(post != 3 && pre != 3);
-    }
+        (post, pre)
+    } else {
+        // the 1-for-3 reverse split of known finding F1 (1/3 and 1/(1/3) are
+        // rounded the same way at any number of digits, so a counterexample
+        // found with the 6-digit model is one with rust_decimal's 28 digits)
+        (1, 3)
+    };
     let z = any_in(1, 4 * SH_MAX);
     let o1 = any_in(0, OFF_MAX); let g = any_in(0, 10);
     let o2 = o1 + g;
@@ -266,11 +272,11 @@ fn lookahead_split_sell(exact_only: bool) {
 }
 sl_harness! {
     #[kani::unwind(5)]
-    fn c04_lookahead_split_sell_any_ratio() { lookahead_split_sell(false); }
+    fn c04_lookahead_split_sell_one_for_three() { lookahead_split_sell(1); }
 }
 sl_harness! {
     #[kani::unwind(5)]
-    fn c04_lookahead_split_sell_exact_ratio() { lookahead_split_sell(true); }
+    fn c04_lookahead_split_sell_exact_ratio() { lookahead_split_sell(0); }
 }
 
 // W5 (C15/C02): a split before the sale (inside or outside the window) and a
